@@ -25,12 +25,50 @@ def group_key(prop, what):
     return '%s|%s' % (prop, w[:110])
 
 
+def mon_stats(mons):
+    d = {}
+    for m in mons:
+        if isinstance(m, Mo.MisuseMonitor):
+            d['misuse_calls'] = m.calls
+            d['misuse_engine_states'] = m.distinct
+    return d
+
+
 def make_monitors(family):
-    return [Mo.SafetyMonitor(), Mo.OracleMonitor()]
+    return [Mo.SafetyMonitor(), Mo.OracleMonitor(), Mo.MisuseMonitor()]
+
+
+def explore_order(job):
+    from . import order
+    t0 = time.time()
+    out = {'name': job['name'], 'family': job['family'], 'mode': job['mode'], 'nodes': job['nodes'], 'edges': job['edges']}
+    try:
+        st, viols = order.run_instance(_MOD, [tuple(n) for n in job['nodes']], [tuple(e) for e in job['edges']], job['mode'],
+                                       job.get('tier', 'quick'), job.get('seed', 0), deadline=job.get('deadline'))
+        groups = {}
+        for v in viols:
+            gk = group_key('C14', v['what'])
+            g = groups.setdefault(gk, {'prop': 'C14', 'count': 0, 'examples': []})
+            g['count'] += 1
+            v['universe'] = job['name']
+            g['examples'].append(v)
+        out.update({'ok': True, 'states': st['states'], 'transitions': st['transitions'], 'events': st['events'], 'forks': 0,
+                    'finals': st['finals'], 'capped': st['capped'], 'solver': st['solver'], 'by_eval': 0,
+                    'obligations': st['pairs'], 'discharged': st['pairs'] - len(viols), 'groups': groups, 'samples': [],
+                    'mir_blocks': rt.STEPS.total, 'wall': time.time() - t0,
+                    'mon_stats': {'orders': st['orders'], 'outcome_pairs': st['pairs'], 'pairs_sent_to_solver': st['pairs_solver'],
+                                  'distinct_outcomes': st['outcomes']}})
+    except rt.Unsupported as e:
+        out.update({'ok': False, 'error': 'unsupported: %s' % str(e)[:300], 'trace': traceback.format_exc()[-1500:]})
+    except Exception as e:
+        out.update({'ok': False, 'error': '%s: %s' % (type(e).__name__, str(e)[:300]), 'trace': traceback.format_exc()[-1500:]})
+    return out
 
 
 def explore_universe(job):
     """worker: job = dict(family, nodes, edges, mode, name, deadline, opts)"""
+    if job['family'] == 'H-ORDER':
+        return explore_order(job)
     t0 = time.time()
     out = {'name': job['name'], 'family': job['family'], 'mode': job['mode'], 'nodes': job['nodes'], 'edges': job['edges']}
     try:
@@ -64,7 +102,8 @@ def explore_universe(job):
                     'forks': ex.n_forks, 'finals': len(ex.finals), 'capped': ex.capped,
                     'solver': ex.z.stats.to_json(), 'by_eval': ex.z.by_eval,
                     'obligations': sum(m.obligations for m in om), 'discharged': sum(m.discharged for m in om),
-                    'groups': groups, 'samples': samples, 'mir_blocks': rt.STEPS.total, 'wall': time.time() - t0})
+                    'groups': groups, 'samples': samples, 'mir_blocks': rt.STEPS.total, 'wall': time.time() - t0,
+                    'mon_stats': mon_stats(mons)})
     except rt.Unsupported as e:
         out.update({'ok': False, 'error': 'unsupported: %s' % str(e)[:300], 'trace': traceback.format_exc()[-1500:]})
     except Exception as e:
@@ -85,7 +124,20 @@ CURATED4 = [
 ]
 
 
-def universes(tier, seed):
+def universes(family, tier, seed):
+    if family == 'H-ORDER':
+        jobs = []
+        for n in (1, 2, 3):
+            for nodes, edges in H.all_instances(n):
+                for mode in (['ident', 'rel', 'prod'] if tier == 'thorough' else ['ident', 'rel']):
+                    jobs.append({'family': 'H-ORDER', 'nodes': nodes, 'edges': edges, 'mode': mode, 'tier': tier, 'seed': seed})
+        for nodes, edges in CURATED4:
+            for mode in (['ident', 'rel'] if tier == 'thorough' else ['ident']):
+                jobs.append({'family': 'H-ORDER', 'nodes': nodes, 'edges': edges, 'mode': mode, 'tier': 'quick', 'seed': seed})
+        for i, j in enumerate(jobs):
+            j['name'] = 'o%d_%s_%s' % (i, j['mode'], ''.join(k[0] for _, k in j['nodes']) + '_' + ''.join('%s%s' % (u, d) for d, u in j['edges']))
+        jobs.sort(key=lambda j: -len(j['nodes']) * 10 - len(j['edges']))
+        return jobs
     jobs = []
     for n in (1, 2, 3):
         for nodes, edges in H.all_instances(n):
@@ -104,8 +156,8 @@ def universes(tier, seed):
     return jobs
 
 
-def results_key(tier, seed):
-    return '%s_%s_%s_%d' % (build.tree_hash(), framework_hash(), tier, seed)
+def results_key(family, tier, seed):
+    return '%s_%s_%s_%s_%d' % (build.tree_hash(), framework_hash(), family, tier, seed)
 
 
 def framework_hash():
@@ -117,19 +169,19 @@ def framework_hash():
     return h.hexdigest()[:10]
 
 
-def run(tier, seed, log=sys.stderr, wall_cap=None, nproc=16):
+def run(family, tier, seed, log=sys.stderr, wall_cap=None, nproc=16):
     """returns the aggregated result dict (cached)"""
-    key = results_key(tier, seed)
+    key = results_key(family, tier, seed)
     path = os.path.join(build.CACHE, 'results', key + '.json')
-    with build.Lock('results_' + tier):
+    with build.Lock('results_%s_%s' % (family, tier)):
         if os.path.exists(path):
             return json.load(open(path))
         t0 = time.time()
-        jobs = universes(tier, seed)
+        jobs = universes(family, tier, seed)
         if wall_cap:
             for j in jobs:
                 j['deadline'] = t0 + wall_cap
-        agg = {'key': key, 'tier': tier, 'seed': seed, 'universes': len(jobs), 'states': 0, 'transitions': 0, 'events': 0,
+        agg = {'key': key, 'family': family, 'tier': tier, 'seed': seed, 'mon_stats': {}, 'universes': len(jobs), 'states': 0, 'transitions': 0, 'events': 0,
                'forks': 0, 'finals': 0, 'obligations': 0, 'discharged': 0, 'by_eval': 0, 'mir_blocks': 0,
                'solver': {'queries': 0, 'sat': 0, 'unsat': 0, 'solver_s': 0.0, 'cache_hits': 0, 'by_class': {}},
                'groups': {}, 'samples': [], 'errors': [], 'capped': [], 'per_family': {}, 'per_mode': {}}
@@ -153,9 +205,15 @@ def run(tier, seed, log=sys.stderr, wall_cap=None, nproc=16):
                 pm['states'] += r['states']
                 if r['capped']:
                     agg['capped'].append(r['name'])
+                for k, v in r.get('mon_stats', {}).items():
+                    agg['mon_stats'][k] = agg['mon_stats'].get(k, 0) + v
                 for gk, g in r['groups'].items():
-                    G = agg['groups'].setdefault(gk, {'prop': g['prop'], 'count': 0, 'universes': 0, 'examples': []})
+                    G = agg['groups'].setdefault(gk, {'prop': g['prop'], 'count': 0, 'universes': 0, 'examples': [], 'modes': []})
                     G['count'] += g['count']
+                    if r['mode'] not in G['modes']:
+                        G['modes'].append(r['mode'])
+                    for e in g['examples']:
+                        e['mode'] = r['mode']
                     G['universes'] += 1
                     G['examples'].extend(g['examples'])
                     G['examples'].sort(key=lambda e: (len(e['scenario']['nodes']), e['depth']))
@@ -168,14 +226,15 @@ def run(tier, seed, log=sys.stderr, wall_cap=None, nproc=16):
         with open(path + '.tmp', 'w') as f:
             json.dump(agg, f)
         os.rename(path + '.tmp', path)
-        print('[runall] %s: %d universes, %d states, %d events, %d obligations, wall %.1fs' % (
-            tier, len(jobs), agg['states'], agg['events'], agg['obligations'], agg['wall_s']), file=log)
+        print('[runall] %s %s: %d universes, %d states, %d events, %d obligations, wall %.1fs' % (
+            family, tier, len(jobs), agg['states'], agg['events'], agg['obligations'], agg['wall_s']), file=log)
         return agg
 
 
 if __name__ == '__main__':
     tier = sys.argv[1] if len(sys.argv) > 1 else 'quick'
-    r = run(tier, int(os.environ.get('VERIF_SEED', '0')))
+    fam = sys.argv[2] if len(sys.argv) > 2 else 'H-EVAL'
+    r = run(fam, tier, int(os.environ.get('VERIF_SEED', '0')))
     print(json.dumps({k: v for k, v in r.items() if k not in ('groups', 'samples')}, indent=1)[:3000])
     for gk, g in sorted(r['groups'].items()):
         print(g['count'], g['universes'], gk)
